@@ -321,7 +321,7 @@ def trend_cases(draw):
     side = deg + 2 + draw(st.integers(0, 3))
     # at least N+1 distinct rows and columns: start from a diagonal, then add free cells
     base = [(k, (k * 2 + 1) % side) for k in range(side)]
-    extra_n = max(0, ncoef + 2 - side) + draw(st.integers(0, 8))
+    extra_n = max(0, ncoef - side) + draw(st.sampled_from([0, 0, 1, 2, 3, 5, 8]))
     extra = draw(st.lists(st.tuples(st.integers(0, side - 1), st.integers(0, side - 1)), min_size=extra_n, max_size=extra_n, unique=True))
     cells = list(dict.fromkeys(base + extra))
     k = draw(st.integers(-2, 4))
@@ -384,7 +384,9 @@ def check_trend(case, ctx):
     at_data = np.asarray(tr.predict((e, n)))
     ctx.check(float(np.max(np.abs(at_data - d))) <= tol, "Trend(%d) does not reproduce the polynomial at the data points", deg)
     ctx.label("deg%d" % deg, "weighted" if case["weights"] else "unweighted", "poly_deg%d" % max([sum(map(int, k.split(","))) for k in case["poly"]] + [0]))
-    ctx.nt(e.size > ncoef and len(case["poly"]) > 0 and (deg == 0 or any(k != "0,0" for k in case["poly"])))
+    if e.size == ncoef:
+        ctx.label("square_system")
+    ctx.nt(e.size >= ncoef and len(case["poly"]) > 0 and (deg == 0 or any(k != "0,0" for k in case["poly"])))
 
 
 SUBCHECKS = [
